@@ -26,8 +26,8 @@ def packedHist (t : Array String) : String :=
       let cap := (n * S) / b
       let vals := (List.range cap).map fun i => (i / k) % 2 ^ b
       -- the little-endian bit string of all elements, cut into S-bit slots
-      let big := vals.foldr (fun v acc => acc * 2 ^ b + v) 0
-      (List.range n).map fun j => (big / 2 ^ (j * S)) % 2 ^ S
+      let big := vals.foldr (fun v acc => (acc <<< b) ||| v) 0
+      (List.range n).map fun j => (big >>> (j * S)) % 2 ^ S
     else ws00
   let step (st : List Nat × List String) (tok : String) : List Nat × List String :=
     let (ws, rs) := st
